@@ -5,6 +5,7 @@ import Driver.TQ
 import Driver.Atoi
 import Driver.Env
 import Driver.Affinity
+import Driver.Config
 import Driver.Rank
 import Driver.XsCtx
 import Driver.X86
@@ -24,6 +25,7 @@ def main (args : List String) : IO UInt32 := do
   | ["atoi"] => Driver.Atoi.main; return 0
   | ["env"] => Driver.Env.main; return 0
   | ["affinity"] => Driver.Affinity.main; return 0
+  | ["config"] => Driver.Config.main; return 0
   | ["rank"] => Driver.Rank.main; return 0
   | ["xsctx"] => Driver.XsCtx.main; return 0
   | ["x86"] => Driver.X86.main; return 0
